@@ -28,7 +28,7 @@ Init == pid \in 1..Len(Progs) /\ st = S0(Progs[pid])
 
 Step(a) == st.ph[a] = "run" /\ (P.gran = "mc" => EnabledMC(P, st, a)) /\ st' = SettleAll(P, Handle(P, st, a))
 Fire(a) == CanFire(st, a) /\ st' = SettleAll(P, FireTimer(P, st, a))
-Comp(c) == CanComplete(st, c) /\ st' = SettleAll(P, Complete(P, st, c))
+Comp(c) == P.gran # "mc" /\ CanComplete(st, c) /\ st' = SettleAll(P, Complete(P, st, c))
 KillT(a) == KillDue(st, a) /\ st' = SettleAll(P, KillActor(P, st, a))
 DKill    == OnlyDaemons(P, st) /\ st' = SettleAll(P, DaemonKill(P, st))
 Adv     == CanAdvance(P, st) /\ st' = Advance(P, st)
